@@ -192,7 +192,7 @@ def compute(tier, d):
             if v == lines:
                 continue
             path = os.path.join(d, "v%05d.vhd" % k)
-            with open(path, "w") as fh:
+            with open(path, "w", encoding="utf-8", errors="surrogateescape") as fh:
                 fh.write("\n".join(v) + "\n")
         jobs.append({"path": path, "argv": argv, "trace_path": os.path.join(d, "t%05d.trace" % k), "roles": roles, "refix": 4 if tier == "thorough" else 2,
                      "label": {x: j[x] for x in j if x not in ("path", "argv")}, "source": j["path"], "keep_text": j["kind"] == "variant",
@@ -217,7 +217,7 @@ def compute(tier, d):
         elif lab.get("kind") == "variant":
             o["rel"] += " <%s variant>" % lab["variant"]
             try:
-                o["variant_text"] = open(o["path"]).read() if (o.get("records") is not None and (o["status"] != "ok" or o.get("reread_diff") or o.get("refix_changes") or o.get("reread_rejected"))) else None
+                o["variant_text"] = open(o["path"], errors="replace").read() if (o.get("records") is not None and (o["status"] != "ok" or o.get("reread_diff") or o.get("refix_changes") or o.get("reread_rejected"))) else None
             except OSError:
                 pass
         o["label"] = lab
